@@ -141,13 +141,13 @@ Section Shapes.
     map (fun k => let th := prism_theta n orient k in
                   (BIn, SPlane (V3 (ncos th) (nsin th) n0) a)) (seq 0 n).
 
-  Definition ppiped_surfaces (hx hy hz alpha theta phi : T) : list (bsense * surf) :=
-    let sinth := sin_turn theta in let costh := cos_turn theta in
-    let sinphi := sin_turn phi in let cosphi := cos_turn phi in
-    let sinal := sin_turn alpha in let cosal := cos_turn alpha in
-    let a := V3 (hx * n1) (hx * n0) (hx * n0) in
-    let b := V3 (hy * sinal) (hy * cosal) (hy * n0) in
-    let c := V3 (hz * (sinth * cosphi)) (hz * (sinth * sinphi)) (hz * costh) in
+  (** Parallelepiped::build with the six trigonometric values made explicit *)
+  Definition ppiped_vectors (hx hy hz sinal cosal sinth costh sinphi cosphi : T) : vec * vec * vec :=
+    (V3 (hx * n1) (hx * n0) (hx * n0),
+     V3 (hy * sinal) (hy * cosal) (hy * n0),
+     V3 (hz * (sinth * cosphi)) (hz * (sinth * sinphi)) (hz * costh)).
+  Definition ppiped_surfaces_sc (hx hy hz sinal cosal sinth costh sinphi cosphi : T) : list (bsense * surf) :=
+    let '(a, b, c) := ppiped_vectors hx hy hz sinal cosal sinth costh sinphi cosphi in
     let xnorm := make_unit_vector (cross b c) in
     let ynorm := make_unit_vector (cross c a) in
     let xoffset := dot a xnorm in
@@ -155,6 +155,9 @@ Section Shapes.
     [(BOut, planeZ (- hz)); (BIn, planeZ hz);
      (BOut, SPlane ynorm (- yoffset)); (BIn, SPlane ynorm yoffset);
      (BOut, SPlane xnorm (- xoffset)); (BIn, SPlane xnorm xoffset)].
+  Definition ppiped_surfaces (hx hy hz alpha theta phi : T) : list (bsense * surf) :=
+    ppiped_surfaces_sc hx hy hz (sin_turn alpha) (cos_turn alpha) (sin_turn theta) (cos_turn theta)
+                       (sin_turn phi) (cos_turn phi).
 
   Definition wedge_surfaces (start interior : T) : list (bsense * surf) :=
     let ss := sin_turn start in let cs := cos_turn start in
@@ -162,6 +165,26 @@ Section Shapes.
     [(BIn, SPlane (V3 ss (- cs) n0) n0); (BOut, SPlane (V3 se (- ce) n0) n0)].
 
   Definition pt_eqb (a b : T * T) : bool := (fst a =? fst b) && (snd a =? snd b).
+
+  (** the "twisted" (hyperbolic paraboloid) face through the four points *)
+  Definition twisted_quadric (hz : T) (ilo jlo jhi ihi : vec) : surf :=
+    let aux := nhalf / hz in
+    let txi := aux * (vx ihi - vx ilo) in
+    let tyi := aux * (vy ihi - vy ilo) in
+    let txj := aux * (vx jhi - vx jlo) in
+    let tyj := aux * (vy jhi - vy jlo) in
+    let mxi := nhalf * (vx ilo + vx ihi) in
+    let myi := nhalf * (vy ilo + vy ihi) in
+    let mxj := nhalf * (vx jlo + vx jhi) in
+    let myj := nhalf * (vy jlo + vy jhi) in
+    let czz := txj * tyi - txi * tyj in
+    let eyz := txi - txj in
+    let fzx := tyj - tyi in
+    let gx := myj - myi in
+    let hy := mxi - mxj in
+    let iz := txj * myi - txi * myj + tyi * mxj - tyj * mxi in
+    let js := mxj * myi - mxi * myj in
+    SGeneralQuadric (V3 n0 n0 czz) (V3 n0 eyz fzx) (V3 gx hy iz) js.
 
   (** one lateral face of a GenPrism: edge i -> j *)
   Definition genprism_face (tol hz : T) (li lj hi_ hj : T * T) : bsense * surf :=
@@ -176,23 +199,7 @@ Section Shapes.
     else if pt_eqb li lj then
       (BIn, plane_pt hi_normal ihi)
     else
-      let aux := nhalf / hz in
-      let txi := aux * (vx ihi - vx ilo) in
-      let tyi := aux * (vy ihi - vy ilo) in
-      let txj := aux * (vx jhi - vx jlo) in
-      let tyj := aux * (vy jhi - vy jlo) in
-      let mxi := nhalf * (vx ilo + vx ihi) in
-      let myi := nhalf * (vy ilo + vy ihi) in
-      let mxj := nhalf * (vx jlo + vx jhi) in
-      let myj := nhalf * (vy jlo + vy jhi) in
-      let czz := txj * tyi - txi * tyj in
-      let eyz := txi - txj in
-      let fzx := tyj - tyi in
-      let gx := myj - myi in
-      let hy := mxi - mxj in
-      let iz := txj * myi - txi * myj + tyi * mxj - tyj * mxi in
-      let js := mxj * myi - mxi * myj in
-      (BIn, SGeneralQuadric (V3 n0 n0 czz) (V3 n0 eyz fzx) (V3 gx hy iz) js).
+      (BIn, twisted_quadric hz ilo jlo jhi ihi).
 
   Definition rot1 {A} (l : list A) : list A :=
     match l with [] => [] | x :: r => r ++ [x] end.
@@ -260,12 +267,15 @@ Section Shapes.
       through the centres of the x-parallel edges, which makes angle alpha with
       the y axis.  (dx, dy, dz) are the half-lengths of the PROJECTIONS of the
       edges on x, y, z. *)
-  Definition inside_ppiped (dx dy dz alpha theta phi : T) (p : vec) : bool :=
-    let tanth := sin_turn theta / cos_turn theta in
-    let tanal := sin_turn alpha / cos_turn alpha in
-    let y' := vy p - vz p * tanth * sin_turn phi in
-    let x' := vx p - vz p * tanth * cos_turn phi - y' * tanal in
+  Definition inside_ppiped_sc (dx dy dz sinal cosal sinth costh sinphi cosphi : T) (p : vec) : bool :=
+    let tanth := sinth / costh in
+    let tanal := sinal / cosal in
+    let y' := vy p - vz p * tanth * sinphi in
+    let x' := vx p - vz p * tanth * cosphi - y' * tanal in
     abs_le (vz p) dz && abs_le y' dy && abs_le x' dx.
+  Definition inside_ppiped (dx dy dz alpha theta phi : T) (p : vec) : bool :=
+    inside_ppiped_sc dx dy dz (sin_turn alpha) (cos_turn alpha) (sin_turn theta) (cos_turn theta)
+                     (sin_turn phi) (cos_turn phi) p.
   (** polar angle test: with p' = p rotated by -start about z, rho = |p'_xy|:
       the polar angle of p' (in [0, 1) turn) is at most [interior].
       For interior <= 1/2: y' >= 0 and cos(angle) = x'/rho >= cos(interior);
@@ -315,6 +325,43 @@ Section Shapes.
     | PPpiped dx dy dz al th ph => inside_ppiped dx dy dz al th ph p
     | PWedge s i => inside_wedge s i p
     | PGenPrism hz lo hi _ => inside_genprism hz lo hi p
+    end.
+
+  (** ** bounding boxes declared by [build] (SurfaceClipper.cc for the
+      axis-aligned planes / centred sphere / centred cylinder, plus the explicit
+      [insert_surface(Sense, BBox)] calls): (lower, upper) corners; [None] = null *)
+  Definition bbox : Type := vec * vec.
+  Definition in_bbox (b : bbox) (p : vec) : bool :=
+    (vx (fst b) <=? vx p) && (vx p <=? vx (snd b)) &&
+    (vy (fst b) <=? vy p) && (vy p <=? vy (snd b)) &&
+    (vz (fst b) <=? vz p) && (vz p <=? vz (snd b)).
+  Definition sym_bbox (hx hy hz : T) : bbox := (V3 (- hx) (- hy) (- hz), V3 hx hy hz).
+  (** SurfaceClipper.cc: sqrt_half = sqrt_two / 2, sqrt_third = sqrt_three / 2 *)
+  Definition sqrt_half : T := nsqrt n2 / n2.
+  Definition sqrt_third : T := nsqrt (nofZ 3) / n2.
+  (** (interior, exterior) *)
+  Definition declared_bboxes (pr : prim) : option (option bbox * option bbox) :=
+    match pr with
+    | PBox hx hy hz => Some (Some (sym_bbox hx hy hz), Some (sym_bbox hx hy hz))
+    | PSphere r =>
+        let rr := nsqrt (r * r) in
+        Some (Some (sym_bbox (sqrt_third * rr) (sqrt_third * rr) (sqrt_third * rr)), Some (sym_bbox rr rr rr))
+    | PCyl r hh =>
+        let rr := nsqrt (r * r) in
+        Some (Some (sym_bbox (sqrt_half * rr) (sqrt_half * rr) hh), Some (sym_bbox rr rr hh))
+    | PEllipsoid rx ry rz =>
+        let k := n1 / nsqrt (nofZ 3) in
+        Some (Some (sym_bbox (rx * k) (ry * k) (rz * k)), Some (sym_bbox rx ry rz))
+    | PPpiped hx hy hz al th ph =>
+        let '(a, b, c) := ppiped_vectors hx hy hz (sin_turn al) (cos_turn al) (sin_turn th) (cos_turn th)
+                                         (sin_turn ph) (cos_turn ph) in
+        let hd := vadd (vadd a b) c in
+        (* z is also clipped by the two PlaneZ; general planes reset the interior *)
+        Some (None, Some (V3 (- vx hd) (- vy hd) (nfmax (- hz) (- vz hd)), V3 (vx hd) (vy hd) (nfmin hz (vz hd))))
+    | PPrism n a hh _ =>
+        let cr := a / ncos (npi / nofZ (Z.of_nat n)) in
+        Some (Some (sym_bbox a a hh), Some (sym_bbox cr cr hh))
+    | _ => None
     end.
 
   (** ** clearance from the surfaces of a primitive
